@@ -409,7 +409,10 @@ def step(kl, m, op, hist_texts, buffered_rows):
     if not ok:
         snippet = ('from klongpy import KlongInterpreter\nk = KlongInterpreter()\n'
                    + ''.join('k(%r)\n' % s for s in ['.py("klongpy.db")', prog[0], 'db::.db(:{},"t",,t)'])
-                   + 'for s in %r:\n    try:\n        print(s, "->", k(s))\n    except Exception as e:\n'
+                   + 'for s in %r:\n    try:\n        r = k(s)\n'
+                     '        print(s, "->", "<table>" if isinstance(r, dict) else repr(r))'
+                     '    # printing a table would read it (and flush its insert buffer)\n'
+                     '    except Exception as e:\n'
                      '        print(s, "-> EXC", type(e).__name__, e)\n' % (prog[1:],)
                    + '# expected for the last line: %s\n' % expected_s)
         viol = dict(key=' ; '.join(prog) + ' ' + what, observed=observed, expected=expected_s,
@@ -459,10 +462,19 @@ def make_expand(b):
         if not hist:
             for n, r in tables:
                 op = ('create', n, r)
-                kl, m = build((op,))
                 out['transitions'] += 1
                 out['by_op']['create'] = out['by_op'].get('create', 0) + 1
-                out['succ'].append((op, (m.key(), fingerprint(kl['t']))))
+                try:
+                    kl, m = build((op,))
+                    out['succ'].append((op, (m.key(), fingerprint(kl['t']))))
+                except Exception as e:      # noqa: BLE001 - the reads of a fresh table are judged in the next layer
+                    src = text(op, None)
+                    v = dict(key=src + ' @result', observed='exc:' + type(e).__name__, expected='no exception',
+                             case={'ops': [list(op)], 'history': [], 'op': src, 'witness': None},
+                             snippet='from klongpy import KlongInterpreter\nk = KlongInterpreter()\n'
+                                     'k(\'.py("klongpy.db")\')\nk(%r)\n' % src, group='unclassified')
+                    out['viol'].add(json.dumps(v, sort_keys=True))
+                    out['succ'].append((op, None))
             return out
         m0 = model_of(hist)
         ht = texts(hist)
@@ -642,6 +654,11 @@ def run(cfg):
         'pandas, NumPy and DuckDB are used as installed; row order of select * without ORDER BY is taken as the '
         'frame order (DuckDB preserves insertion order)',
         'real values are 10.5 / 20.5 instead of the design\'s 10 / 20 so that the real column is unambiguously real',
+        'state identity: two histories are one state when the model and the listed real Table fields agree; a table '
+        'whose fields an operation left untouched serves the next operation of the same state without a rebuild '
+        '(pandas block layout and DuckDB internals are not part of the state)',
+        'bfs.search runs with a pmap of the same contract backed by one set of workers forked before any DuckDB '
+        'connection exists (DuckDB connections do not survive fork; per-layer workers would reconnect every layer)',
     ]
     return rep
 
@@ -655,7 +672,6 @@ def replay(cfg, path):
         r = json.load(f)
     ops = [_tuplify(o) for o in r['case']['ops']]
     hist, op = tuple(ops[:-1]), ops[-1]
-    kl, m = None, None
     m = None
     kl = env()
     for o in hist + (op,):
